@@ -78,6 +78,7 @@ class Scenario:
         self.dying = set()    # objects whose teardown has begun
         self.notes = []
         self.cost = {}        # per-op event counters (C14/C15)
+        self.subject = None
         self.stale = False    # a recorded handle was removed without unadopt (C13 histories)
 
     # ------------------------------------------------------------ helpers
@@ -94,6 +95,17 @@ class Scenario:
         return Ptr(self.E.new_obj('tmp', v))
 
     def h(self, name, kind=None):
+        if name.startswith('@') or name.startswith('^'):
+            # k-th strong (@k) / weak (^k) slot of the value whose destructor is running
+            if not self.dtor_stack:
+                raise ScriptError('slot reference outside a destructor')
+            pl = self.payloads[self.dtor_stack[-1]]
+            k = int(name[1:])
+            hv, tgt = (pl.strong if name[0] == '@' else pl.weak)[k]
+            x = dict(kind='rc' if name[0] == '@' else 'weak', ptr=self.tmp(hv), obj=tgt, slot=True)
+            if kind and x['kind'] != kind:
+                raise ScriptError('slot %s is %s' % (name, x['kind']))
+            return x
         x = self.handles.get(name)
         if x is None:
             raise ScriptError('unknown handle %s' % name)
@@ -176,6 +188,7 @@ class Scenario:
             self.on_destroy(idx)
         self.dtor_stack.append(v.id)
         first = None
+        cost0 = self.cost_snapshot()
         try:
             try:
                 for op in self.ondrop.get(v.id, []):
@@ -203,8 +216,15 @@ class Scenario:
                     first = p
         finally:
             self.dtor_stack.pop()
+            c1 = self.cost_snapshot()
+            self.excluded = [a + (y - x) for a, x, y in zip(getattr(self, 'excluded', [0, 0, 0]), cost0, c1)]
         if first is not None:
             raise first
+
+    def cost_snapshot(self):
+        cc = self.E.call_counts
+        return [self.E.alloc_events, cc.get('cycle_refs', 0),
+                sum(v for k, v in cc.items() if k.endswith('::orphaned_cycle'))]
 
     def on_destroy(self, idx):
         oi = self.objs[idx]
@@ -334,13 +354,18 @@ class Scenario:
             reach = new
         return reach[j]
 
-    def require(self, cond, prop, clause, detail):
+    def require(self, cond, prop, clause, detail, subject=None):
         """oracle clause: `cond` must hold on every model of the path condition"""
+        if subject is not None:
+            self.subject = subject
         if isinstance(cond, bool):
             if not cond:
                 raise Violation(prop, clause, detail, self.model_values(None))
             return
         self.nqueries_oracle = getattr(self, 'nqueries_oracle', 0) + 1
+        sc = z3.simplify(cond)
+        if z3.is_true(sc):
+            return
         if self.E.check(z3.Not(cond)):
             raise Violation(prop, clause, detail, self.model_values(z3.Not(cond)))
 
@@ -384,6 +409,8 @@ class Scenario:
             for i, op in enumerate(self.script['ops']):
                 self.op_index = i
                 self.run_op(op)
+                if self.opts.get('instrument'):
+                    self.observe_all(op)
                 self.after_op(op)
             self.at_end()
         except Panic as p:
@@ -398,15 +425,30 @@ class Scenario:
             self.on_abort(a)
         return self.status
 
+    def observe_all(self, op):
+        """replay instrumentation: one Weak observer per object, read after every operation"""
+        if op['op'] == 'new':
+            self.run_op({'op': 'downgrade', 'h': op['as'], 'as': '__w%d' % op['obj']})
+            return
+        for idx in sorted(self.objs):
+            if ('__w%d' % idx) in self.handles:
+                self.run_op({'op': 'w_strong_count', 'w': '__w%d' % idx})
+                self.run_op({'op': 'w_weak_count', 'w': '__w%d' % idx})
+        if self.opts.get('instrument') == 'links':
+            for name in sorted(self.handles):
+                x = self.handles[name]
+                if x['kind'] == 'rc' and not name.startswith('__'):
+                    self.run_op({'op': 'links', 'h': name})
+
     def on_uncaught_panic(self, p):
-        if self.oracles & {'C10', 'C02', 'C03', 'C01', 'C13', 'C12'} and not self.opts.get('panics_ok'):
-            raise Violation('C10' if 'C10' in self.oracles else sorted(self.oracles)[0], 'library-panic',
+        if not self.opts.get('panics_ok'):
+            raise Violation(self.opts.get('target', 'C10'), 'library-panic',
                             'operation %d (%s) panicked: %s' % (self.op_index, self.script['ops'][self.op_index].get('op'), p.msg),
                             self.model_values(None))
 
     def on_abort(self, a):
         if not self.opts.get('abort_ok'):
-            raise Violation(sorted(self.oracles)[0] if self.oracles else 'C16', 'unexpected-abort',
+            raise Violation(self.opts.get('target', 'C16'), 'unexpected-abort',
                             'operation %d aborted the process: %s' % (self.op_index, a), self.model_values(None))
 
     def obs(self, op, val):
@@ -420,7 +462,10 @@ class Scenario:
     def run_op(self, op, in_dtor=False):
         E = self.E
         k = op['op']
-        before = (E.alloc_events, dict(E.call_counts)) if 'cost' in op or 'C14' in self.oracles else None
+        before = None
+        if op.get('cost'):
+            self.excluded = [0, 0, 0]
+            cost_before = self.cost_snapshot()
         if k == 'new':
             idx = op['obj']
             if idx in self.objs:
@@ -608,6 +653,13 @@ class Scenario:
                 else:
                     self.require(s_eq(r, self.weak_holders(oi.idx)), 'C06', 'weak-weak-count',
                                  'Weak::weak_count of live object %d differs from the number of Weak handles' % oi.idx)
+        elif k == 'links':
+            x = self.h(op['h'], 'rc')
+            t = self.table(x['obj'])
+            if t is None or t == 'freed':
+                raise UB('uninit-read', 'links of a moved-out table')
+            items = sorted('%s%s=%s' % (kk[0], tg if isinstance(tg, int) else '?', self.conc(c)) for (kk, tg), c in t.items())
+            self.obs(op, ','.join(items) if items else '-')
         elif k == 'ptr_eq':
             a = self.h(op['a'], 'rc')
             b = self.h(op['b'], 'rc')
@@ -739,8 +791,15 @@ class Scenario:
             pass
         else:
             raise ScriptError('unknown op %s' % k)
-        if before is not None and k in ('clone', 'drop') and 'C14' in self.oracles:
-            pass
+        if op.get('cost'):
+            c1 = self.cost_snapshot()
+            d = [y - x - e for x, y, e in zip(cost_before, c1, self.excluded)]
+            self.trace.append(['cost', k, d])
+            if 'C14' in self.oracles:
+                if d[1] or d[2]:
+                    raise Violation('C14', 'traced', '%s of a handle to an object without recorded adoptions ran a reachability trace (%d cycle_refs, %d orphaned_cycle calls)' % (k, d[1], d[2]), self.model_values(None))
+                if d[0]:
+                    raise Violation('C14', 'allocated', '%s of a handle to an object without recorded adoptions performed %d heap allocation(s)' % (k, d[0]), self.model_values(None))
 
     def conc(self, v):
         if is_sym(v):
@@ -784,6 +843,38 @@ class Scenario:
     # ------------------------------------------------------------ oracle hooks around ops
     def pre_drop(self, idx):
         self._pre_destroyed = set(i for i, o in self.objs.items() if o.destroyed)
+        self._orphan = None
+        if 'C03' in self.oracles and not self.stale and idx in self.objs:
+            self._orphan = self.orphan_condition(idx)
+
+    def alive(self, i):
+        o = self.objs[i]
+        return not (o.destroyed or o.unwrapped or o.freed)
+
+    def orphan_condition(self, x):
+        """(S, cond): S = objects reachable from x through recorded adoptions; cond = after one handle to x is
+        gone, every strong handle to every member of S is a recorded adoption held by a member of S"""
+        if not self.alive(x):
+            return None
+        S = {x}
+        changed = True
+        while changed:
+            changed = False
+            for (i, j), n in self.rec.items():
+                if n > 0 and i in S and j not in S and self.alive(j):
+                    S.add(j)
+                    changed = True
+        terms = []
+        for y in S:
+            inside = sum(n for (i, j), n in self.rec.items() if j == y and i in S and n > 0) + self.rec_same.get(y, 0)
+            # the ledger already reflects the removal of the handle that is being dropped
+            hold = self.holders(y)
+            terms.append(s_eq(hold, inside))
+        if any(t is False for t in terms):
+            return (S, False)
+        ts = [t for t in terms if t is not True]
+        cond = True if not ts else (ts[0] if len(ts) == 1 else z3.And(*ts))
+        return (S, cond)
 
     def post_drop(self, idx, before):
         pass
@@ -846,21 +937,49 @@ class Scenario:
                     a = t.get(key, 0)
                     b = exp[idx].get(key, 0)
                     self.require(s_eq(a, b), 'C08', 'table-exact',
-                                 'after op %d: table of object %d has %s=%s, the calls imply %s' % (self.op_index, idx, key, a, b))
+                                 'after op %d: table of object %d has %s=%s, the calls imply %s' % (self.op_index, idx, key, a, b), subject=[idx])
 
     def check_collected(self):
         """C03: after a drop, every group that became orphaned must be gone; every object with no strong handle too"""
-        live = [i for i, o in self.objs.items() if not o.destroyed and not o.unwrapped]
+        live = [i for i, o in self.objs.items() if not o.destroyed and not o.unwrapped and not o.freed]
         for i in live:
             hold = self.holders(i)
             self.require(s_not(s_eq(hold, 0)), 'C03', 'zero-count-not-destroyed',
-                         'object %d has no strong handle left after op %d but was not destroyed' % (i, self.op_index))
-        # recorded-adoption closure of the object whose handle was just dropped
-        op = self.script['ops'][self.op_index]
-        x = getattr(self, '_last_dropped', None)
+                         'object %d has no strong handle left after op %d but was not destroyed' % (i, self.op_index), subject=[i])
+        orp = getattr(self, '_orphan', None)
+        self._orphan = None
+        if orp is not None:
+            S, cond = orp
+            survivors = [y for y in S if self.alive(y)]
+            if survivors and cond is not False:
+                self.subject = sorted(S)
+                if cond is True:
+                    raise Violation('C03', 'orphan-not-collected',
+                                    'op %d orphaned the adopted group %s but member(s) %s were not destroyed' % (self.op_index, sorted(S), survivors),
+                                    self.model_values(None))
+                self.require(z3.Not(cond), 'C03', 'orphan-not-collected',
+                             'op %d orphaned the adopted group %s but member(s) %s were not destroyed' % (self.op_index, sorted(S), survivors))
 
     def at_end(self):
-        pass
+        if self.opts.get('expect_all_freed'):
+            for i, oi in self.objs.items():
+                if not oi.destroyed and not oi.unwrapped:
+                    raise Violation('C04', 'not-destroyed', 'object %d is still alive at the end of a history that dropped every handle' % i,
+                                    self.model_values(None))
+            for oid, o in self.E.heap.items():
+                if o.live and o.kind in ('box', 'heap', 'map', 'vec'):
+                    what = self.box2obj.get(oid)
+                    raise Violation('C04', 'leak', 'heap object #%d (%s%s) is still allocated after every object was destroyed and every Weak dropped'
+                                    % (oid, o.kind, o.meta.get('label', '') if what is None else ' RcBox of object %d' % what),
+                                    self.model_values(None))
+
+    def path_summary(self):
+        """per-op observable outcome used by the layout-independence product check (C09)"""
+        out = []
+        cur = []
+        for t in self.trace:
+            cur.append(tuple(t) if t[0] != 'ret' else ('ret', t[1], str(t[2])))
+        return tuple(sorted(x for x in cur if x[0] == 'dtor')), tuple(x for x in cur if x[0] != 'dtor')
 
 
 def run_path(P, script, decisions, layout_factory, sym, oracles, opts=None):
